@@ -38,6 +38,9 @@ pub fn shared(prop: &'static str, seed: u64) -> Vec<Scenario> {
         add(Tier::Quick, format!("liq2.sameblock.{}", p.tag()), "two liquidations by different liquidators in one block", 600, 150, Box::new(t_liq2(pc.clone(), true)));
         add(Tier::Quick, format!("liq-two-same-block.{}", p.tag()), "the liquidator opens its own position and liquidates two traders in that block", 600, 150, Box::new(t_liq_two_same_block(pc.clone())));
         add(Tier::Quick, format!("fund.pclose.close.{}", p.tag()), "positions, a funding settlement, then alice closes under a tight price band (a partial close), the band is lifted and she closes the rest", 400, 150, Box::new(t_fund_pclose(pc.clone())));
+        add(Tier::Quick, format!("dust.{}", p.tag()), "a position of a few raw units at 1x (symbolic, down to 0), the price moves far against it, close", 400, 150, Box::new(t_dust(pc.clone())));
+        add(Tier::Quick, format!("pclose.{}", p.clone().fees().tag()), "alice opens, bob moves the price, a tight band: a partial close (explored exhaustively, fees), then the rest", 400, 150, Box::new(t_pclose(pc.clone().fees(), false)));
+        add(Tier::Quick, format!("pclose.with.{}", p.clone().lim().tag()), "as above, bob trades the same way, symbolic limit", 400, 150, Box::new(t_pclose(pc.clone().lim(), true)));
         add(Tier::Quick, format!("dep-close.{}", p.tag()), "alice 10x, bob trades against her beyond her margin, alice deposits a symbolic amount (equity crosses zero exactly at one value) and closes", 400, 150, Box::new(t_dep_close(pc.clone(), 45)));
         add(Tier::Quick, format!("prepaid-closes.{}", p.tag()), "three traders on one side close one after the other, each paid partly by the insurance fund (prepaid bad debt accumulates)", 400, 150, Box::new(t_prepaid_closes(pc.clone())));
         add(Tier::Quick, format!("two-vamms.{}", p.tag()), "two registered vAMMs: trades, a funding settlement and a liquidation on one, withdraw/close on the other", 600, 150, Box::new(t_two_vamms(pc.clone())));
@@ -65,6 +68,11 @@ pub fn shared(prop: &'static str, seed: u64) -> Vec<Scenario> {
     add(Tier::Quick, format!("depwd.{}", p.clone().native().tag()), d_depwd, 400, 120, Box::new(t_depwd(pc.clone().native())));
     add(Tier::Quick, format!("fund.close.{}", p.tag()), d_fund, 400, 150, Box::new(t_fund(pc.clone(), 0)));
     add(Tier::Quick, format!("fund.close.{}", P::new(prop, Sell, seed).tag()), d_fund, 400, 150, Box::new(t_fund(P::new(prop, Sell, seed).concrete_prefix(), 0)));
+    let d_out = "the vAMM's own insurance_fund config field points at an outsider account; fees symbolic";
+    let po = pc.clone().fees().vamm_ins_outsider();
+    add(Tier::Quick, format!("close.against.{}", po.tag()), d_out, 400, 150, Box::new(t_close(po.clone(), false)));
+    add(Tier::Quick, format!("opp.{}", po.tag()), d_out, 600, 150, Box::new(t_open2(po.clone(), false)));
+    add(Tier::Quick, format!("pclose.{}", po.clone().native().tag()), d_out, 400, 150, Box::new(t_pclose(po.clone().native(), false)));
     // native collateral with a symbolic amount of coins attached to the messages that need none
     let d_att = "native collateral; a symbolic amount of collateral coins is attached to ClosePosition / Liquidate / PayFunding / WithdrawMargin (messages that need none)";
     let pa = pc.clone().native().attached();
@@ -106,6 +114,11 @@ pub fn fees(seed: u64) -> Vec<Scenario> {
     add(Tier::Quick, format!("depwd.{}", p.tag()), d, 400, 120, Box::new(t_depwd(pc.clone())));
     add(Tier::Quick, format!("fund.close.{}", p.tag()), d, 600, 150, Box::new(t_fund(pc.clone(), 0)));
     add(Tier::Quick, format!("open.{}", p.clone().native().tag()), d, 600, 150, Box::new(t_open(p.clone().native())));
+    add(Tier::Quick, format!("close.against.{}", pc.clone().native().tag()), d, 400, 150, Box::new(t_close(pc.clone().native(), false)));
+    add(Tier::Quick, format!("close.with.{}", P::new(prop, Sell, seed).fees().concrete_prefix().native().tag()), d, 400, 150, Box::new(t_close(P::new(prop, Sell, seed).fees().concrete_prefix().native(), true)));
+    add(Tier::Quick, format!("fund.close.{}", pc.clone().native().tag()), d, 600, 150, Box::new(t_fund(pc.clone().native(), 0)));
+    add(Tier::Quick, format!("close.against.{}", pc.clone().vamm_ins_outsider().tag()), d, 400, 150, Box::new(t_close(pc.clone().vamm_ins_outsider(), false)));
+    add(Tier::Quick, format!("opp.{}", pc.clone().vamm_ins_outsider().tag()), d, 800, 150, Box::new(t_open2(pc.clone().vamm_ins_outsider(), false)));
     v
 }
 
@@ -200,6 +213,8 @@ pub fn liq(prop: &'static str, seed: u64) -> Vec<Scenario> {
             add(Tier::Quick, format!("{}.{}", rn, pc.clone().partial().oracle().tag()), d, 800, 150, Box::new(t_liq(pc.clone().partial().oracle(), ru)));
         }
         add(Tier::Quick, format!("shallow.{}", pc.clone().counter().tag()), d, 600, 150, Box::new(t_liq(pc.clone().counter(), 5)));
+        add(Tier::Quick, format!("shallow.{}", pc.clone().paused().tag()), d, 400, 150, Box::new(t_liq(pc.clone().paused(), 5)));
+        add(Tier::Quick, format!("deep.{}", pc.clone().paused().tag()), d, 400, 150, Box::new(t_liq(pc.clone().paused(), 45)));
         add(Tier::Quick, format!("shallow.{}", pc.clone().fees().tag()), d, 600, 150, Box::new(t_liq(pc.clone().fees(), 5)));
         add(Tier::Quick, format!("shallow.{}", pc.clone().native().partial().tag()), d, 600, 150, Box::new(t_liq(pc.clone().native().partial(), 5)));
         add(Tier::Quick, format!("deep.{}", pc.clone().native().tag()), d, 600, 150, Box::new(t_liq(pc.clone().native(), 45)));
@@ -261,6 +276,7 @@ pub fn faults(seed: u64) -> Vec<Scenario> {
             add(tier, "liq.deep.partial", Box::new(t_liq(p.clone().partial(), 45)));
             add(Tier::Thorough, "liq.deep", Box::new(t_liq(p.clone(), 45)));
             add(tier, "fund.close", Box::new(t_fund(p.clone(), 0)));
+            add(tier, "pclose", Box::new(t_pclose(p.clone(), false)));
             add(Tier::Thorough, "depwd", Box::new(t_depwd(p.clone())));
         }
     }
@@ -271,6 +287,7 @@ pub fn faults(seed: u64) -> Vec<Scenario> {
         add(Tier::Quick, "open", Box::new(t_open(p.clone())));
         add(Tier::Quick, "close", Box::new(t_close(p.clone(), false)));
         add(Tier::Quick, "liq.shallow", Box::new(t_liq(p.clone(), 5)));
+        add(Tier::Quick, "pclose", Box::new(t_pclose(p.clone(), false)));
         add(Tier::Thorough, "depwd", Box::new(t_depwd(p.clone())));
         add(Tier::Thorough, "fund.close", Box::new(t_fund(p.clone(), 0)));
     }
